@@ -223,7 +223,7 @@ func pickWith(r interface{ Intn(int) int }, must string, n int) []string {
 // names in the error text (used only to form a stable class key).
 func failingFeature(p *Prog, r Res) string {
 	text := string(r.Err) + string(r.Out)
-	roles := []string{"structs", "embed", "aliasbase", "alias", "generics", "ifacea", "ifaceb", "iface", "closures", "tswitch", "labels", "methvals", "convp", "convq", "conv", "registry", "sideeffect", "imports", "asmdecl", "stub", "asm", "lnimpl", "lnpull", "linkname", "init", "ldx", "consts", "maps", "gor", "errs", "tested", "_test"}
+	roles := []string{"structs", "embed", "aliasbase", "alias", "generics", "ifacea", "ifaceb", "iface", "closures", "tswitch", "labels", "methvals", "convp", "convq", "conv", "registry", "sideeffect", "imports", "asmdecl", "stub", "asm", "lnimpl", "lnpull", "linkname", "init", "ldx", "consts", "maps", "gor", "errs", "tested", "methparam", "_test"}
 	for _, role := range roles {
 		if strings.Contains(text, role+".go") || strings.Contains(text, role+"_amd64.s") {
 			return role
